@@ -6,17 +6,12 @@
 From Coq Require Import List Bool Arith NArith ZArith String Ascii.
 From Coq.Strings Require Import Byte.
 From Verif.Base Require Import Bytes Outcome Str.
-From Verif.Gen Require Import Registry.
 From Verif.Model Require Import Agg.
-From Verif.Proofs Require Import Agg_spec.
+From Verif.Proofs Require Import Agg_spec C05_lemmas.
 Import ListNotations.
 Local Open Scope string_scope.
 
 (* ---------------------------------------------------------------- configurations (mirror c05GetConfig) *)
-Definition antrea_ent : N := 56506%N.
-Definition reg_antrea (n : string) : bool :=
-  existsb (fun row => let '(nm, _, _, ent, _) := row in String.eqb nm n && N.eqb ent antrea_ent) registry_rows.
-
 Definition c05_config (name : string) : option agg_config :=
   if String.eqb name "std" then Some (std_config reg_antrea)
   else if String.eqb name "stdhttp" then Some (stdhttp_config reg_antrea)
@@ -159,6 +154,13 @@ Definition c05_parse (l : list string) : option (agg_config * list op) :=
   | _ => None
   end.
 
+Fixpoint list_N_eqb (a b : list N) : bool :=
+  match a, b with
+  | [], [] => true
+  | x :: a', y :: b' => N.eqb x y && list_N_eqb a' b'
+  | _, _ => false
+  end.
+
 (* ---------------------------------------------------------------- rendering *)
 Definition show_key (k : key) : string :=
   let '(s, d, p, sp, dp) := k in
@@ -210,9 +212,119 @@ Definition c05_model (c : agg_config) (ops : list op) : string :=
   end.
 
 (* ---------------------------------------------------------------- oracle *)
-Definition C05_holds_on (c : agg_config) (ops : list op) (obs : list string) : bool := true.
+(* The body of theorem C05_aggregation, applied to an observation: after every operation
+   (i) only the flow with the operation's 5-tuple changed, (ii) the number of flows is the number
+   of distinct 5-tuples seen, (iii) the abstraction of that flow's record equals the specification
+   run over the flow's events. *)
+Fixpoint parse_rec (n : nat) (l : list string) : option (record * list string) :=
+  match n with
+  | O => Some ([], l)
+  | S n' => match l with
+            | nm :: k :: v :: r =>
+                match parse_kind k with
+                | Some k' => match parse_val k' v, parse_rec n' r with
+                             | Some a, Some (fs, r') => Some ((nm, a) :: fs, r')
+                             | _, _ => None
+                             end
+                | None => None
+                end
+            | _ => None
+            end
+  end.
 
-Definition c05_hyp (c : agg_config) (ops : list op) : bool := true.
+(* { F idx src dst proto sport dport ready filled v4 nf fields }* *)
+Fixpoint parse_changes (fuel : nat) (l : list string) : option (list (nat * key * record)) :=
+  match fuel with
+  | O => None
+  | S fuel' =>
+      match l with
+      | [] => Some []
+      | "F" :: i :: s :: d :: p :: sp :: dp :: _ :: _ :: _ :: nf :: r =>
+          match parse_nat i, parse_key [s; d; p; sp; dp], parse_nat nf with
+          | Some i', Some k, Some nf' =>
+              match parse_rec nf' r with
+              | Some (fs, r') => option_map (cons (i', k, fs)) (parse_changes fuel' r')
+              | None => None
+              end
+          | _, _, _ => None
+          end
+      | _ => None
+      end
+  end.
+
+Fixpoint set_nth (l : list (key * record)) (i : nat) (x : key * record) : list (key * record) :=
+  match l, i with
+  | [], _ => [x]
+  | _ :: t, O => x :: t
+  | y :: t, S i' => y :: set_nth t i' x
+  end.
+Fixpoint lookup_rec (l : list (key * record)) (k : key) : option record :=
+  match l with
+  | [] => None
+  | (k', r) :: t => if key_eqb k' k then Some r else lookup_rec t k
+  end.
+
+Definition op_key (o : op) : option key :=
+  match o with OpRec r => rec_key r | OpReset k => Some k end.
+
+Fixpoint distinct_keys (seen : list key) (h : list op) : nat :=
+  match h with
+  | [] => List.length seen
+  | OpRec r :: t =>
+      match rec_key r with
+      | Some k => if existsb (key_eqb k) seen then distinct_keys seen t else distinct_keys (k :: seen) t
+      | None => distinct_keys seen t
+      end
+  | OpReset _ :: t => distinct_keys seen t
+  end.
+
+Definition parse_count (s : string) : option nat :=
+  match s with String "n" (String "=" r) => parse_nat r | _ => None end.
+
+Definition nacc_eqb (a b : node_acc) : bool :=
+  N.eqb (a_end a) (a_end b) && list_N_eqb (a_stat a) (a_stat b) && list_N_eqb (a_tp a) (a_tp b).
+Definition oaval_eqb (a b : option aval) : bool :=
+  match a, b with
+  | None, None => true
+  | Some x, Some y => String.eqb (show_kind (kind_of x) ++ " " ++ show_val x) (show_kind (kind_of y) ++ " " ++ show_val y)
+  | _, _ => false
+  end.
+Definition fabs_eqb (a b : flow_abs) : bool :=
+  nacc_eqb (f_src a) (f_src b) && nacc_eqb (f_dst a) (f_dst b) && N.eqb (f_end a) (f_end b) &&
+  list_N_eqb (f_stat a) (f_stat b) && list_N_eqb (f_tp a) (f_tp b) &&
+  oaval_eqb (f_reason a) (f_reason b) && oaval_eqb (f_tcp a) (f_tcp b).
+Definition ofabs_eqb (a b : option flow_abs) : bool :=
+  match a, b with None, None => true | Some x, Some y => fabs_eqb x y | _, _ => false end.
+
+(* groups: the observation after each operation; done: operations so far (reversed) *)
+Fixpoint oracle_loop (c : agg_config) (impl : list (key * record)) (done todo : list op)
+  (groups : list (list string)) : bool :=
+  match todo, groups with
+  | [], [] => true
+  | o :: todo', g :: groups' =>
+      match g with
+      | st :: cnt :: changes =>
+          match parse_changes (S (List.length changes)) changes, parse_count cnt, op_key o with
+          | Some chs, Some n, Some k =>
+              let done' := o :: done in
+              let h := rev done' in
+              let impl' := fold_left (fun m ch => set_nth m (fst (fst ch)) (snd (fst ch), snd ch)) chs impl in
+              String.eqb st "ok" &&
+              forallb (fun ch => key_eqb (snd (fst ch)) k) chs &&
+              Nat.eqb n (distinct_keys [] h) && Nat.eqb (List.length impl') n &&
+              ofabs_eqb (option_map (abs c) (lookup_rec impl' k)) (spec_flow c (events_of c h k)) &&
+              oracle_loop c impl' done' todo' groups'
+          | _, _, _ => false
+          end
+      | _ => false
+      end
+  | _, _ => false
+  end.
+
+Definition C05_holds_on (c : agg_config) (ops : list op) (obs : list string) : bool :=
+  if wf_config c && typed_history c ops then oracle_loop c [] [] ops (split_semi obs None) else true.
+
+Definition c05_hyp (c : agg_config) (ops : list op) : bool := wf_config c && typed_history c ops.
 
 Definition c05_run (case obs : list string) : string :=
   match c05_parse case with
